@@ -12,6 +12,17 @@ def run(tier, v, wd, replay=None):
     v.add_tlc(r)
     repo = vlib.scratch_repo(wd, "stub")
     run_vectors(v, wd, repo, "./control/", "TestVerifC18", infile, tags="verif,dae_stub_ebpf", timeout=600)
+    # flow level: chooseProxyDialer (first decision, re-route, second decision) - spec/DialFlow.tla
+    ffile = os.path.join(wd.path, "c18flow.ndjson")
+    r = vlib.tlc(wd, "DialFlow", "DialFlow_mc.cfg", emit_to=ffile, timeout=600)
+    if r.violated:
+        raise vlib.Infra("DialFlow.tla: %s violated" % r.violated)
+    v.add_tlc(r)
+    r2 = vlib.tlc(wd, "DialFlow", "DialFlow_stale.cfg", timeout=600, workers=1)
+    if r2.violated != "TargetFollowsMode":
+        raise vlib.Infra("DialFlow.tla without the second decision no longer violates TargetFollowsMode: vacuous model")
+    run_vectors(v, wd, repo, "./control/", "TestVerifC18Flow", ffile, tags="verif,dae_stub_ebpf", timeout=600, outname="out-flow.json")
     v.coverage["exhaustive"] = True
     v.assumptions += ["'resolved through dae' is injected as an unexpired DNS-knowledge entry, 'verified' through the real-domain set, 'negative' through the negative cache",
-                      "rerouting in plain domain mode is not constrained (the property is silent; the code reroutes genuine names)"]
+                      "rerouting in plain domain mode is not constrained (the property is silent; the code reroutes genuine names)",
+                      "flow level: userspace routing is one rule on the sniffed name plus a fallback; TCP flows; every group has one fixed node"]
